@@ -559,7 +559,11 @@ def scheme_verifiers(ctx):
                             ('Secp256R1Verifier', r'secp256r1::<impl at [^>]*>::verify$', r'Verifier<.*>>::verify$|::verify$'),
                             ('Secp256K1Verifier', r'secp256k1::<impl at [^>]*>::verify$', r'Verifier<.*>>::verify$|::verify$')):
         f = prog.one(rx)
-        paths, ex = A.paths(f, inline=rx[:-1] + r'::\{closure')
+        # helpers of the same source file (coordinate / key decoding) are followed, so that moving code into one hides nothing
+        try:
+            paths, ex = A.paths(f, inline=rx[:-1] + r'::\{closure', same_file=True)
+        except Refuse:
+            paths, ex = A.paths(f, inline=rx[:-1] + r'::\{closure')
 
         def r_sv(p, prim=prim, label=label):
             if p.kind != 'return' or not p.is_ok():
@@ -590,14 +594,135 @@ def scheme_verifiers(ctx):
             return None
         A.require('%s/whole-signature-and-signing-input-reach-the-primitive' % label, paths, r_sv, replay=RB)
 
+        if label == 'Ed25519Verifier':
+            continue
+        EC = prog.structs['JwkParamsEc']
+
+        def coord(t, name):
+            """t derives from decode_b64(<the key's EC params>.<name>)"""
+            for a in apps(t, r'decode_b64$'):
+                fp = None
+                for s_ in subterms(a[2][0]):
+                    if isinstance(s_, tuple) and s_ and s_[0] == 'field' and s_[2] == EC.index(name) and apps(s_, r'try_ec_params$') and mentions(s_, r'^public_key$'):
+                        fp = s_
+                if fp is not None:
+                    return True
+            return False
+
+        def r_key(p, prim=prim, label=label):
+            if p.kind != 'return' or not p.is_ok():
+                return None
+            vs = [c for c in p.calls if re.search(prim, c.name) and from_input(('x', tuple(c.args)), 'signing_input')]
+            fe = [c for c in p.calls if re.search(r'FromEncodedPoint<.*>>::from_encoded_point$|PublicKey.*::from_sec1_bytes$', c.name)]
+            if not vs or not fe:
+                return 'no public key built from an encoded point reaches the primitive'
+            if not any(s_ == fe[0].ret for s_ in subterms(vs[0].args[0])):
+                return 'the primitive does not verify with the key built from the caller\'s JWK'
+            ep = fe[0].args[0]
+            ub = apps(ep, r'EncodedPoint(<.*>)?::from_untagged_bytes$')
+            ac = [c for c in p.calls if re.search(r'EncodedPoint(<.*>)?::from_affine_coordinates$', c.name)]
+            if ub:
+                src = ub[0][2][0]
+                if not (coord(src, 'x') and coord(src, 'y')):
+                    return 'the encoded point is not made of both decoded coordinates of the key'
+                # x first, then y: the chain's receiver carries x
+                ch = apps(src, r'Iterator>::chain$')
+                if ch and not (coord(ch[0][2][0], 'x') and coord(ch[0][2][1], 'y') and not coord(ch[0][2][0], 'y')):
+                    return 'coordinates concatenated in another order than x || y'
+                return None
+            if ac and any(s_ == ac[0].ret for s_ in subterms(ep)):
+                c = ac[0]
+                cv = c.argvals[2] if c.argvals and len(c.argvals) > 2 else None
+                if not (coord(c.args[0], 'x') and coord(c.args[1], 'y')):
+                    return 'affine coordinates are not (x, y) of the key'
+                if not (isinstance(cv, VBool) and p.implies(z3.Not(cv.e))):
+                    return 'the point is built in compressed form: y is reduced to its parity and re-derived from x, so a key with a wrong y is accepted'
+                return None
+            return 'the public key is not built from an uncompressed point over both coordinates of the key'
+        A.require('%s/key-is-the-uncompressed-point-of-both-coordinates' % label, paths, r_key, replay=RB)
+
+
+def codec_binding(ctx, prog):
+    """jwu::{decode_b64, decode_b64_json, encode_b64, encode_b64_json}: one decoder and one encoder - the strict url-safe unpadded
+    Base64 of the multibase engine - stand between the received text and the bytes that are verified; no second (lenient) route"""
+    A = Auditor(ctx, prog)
+    RB = {'scenario': 'jws_binding'}
+
+    def arg_bytes(t):
+        t = strip(t)
+        while isinstance(t, tuple) and t and t[0] == 'app' and re.search(r'AsRef<.*>>::as_ref$|Deref>::deref$', t[1]):
+            t = strip(t[2][0])
+        return t
+
+    f = prog.one(r'base64::decode_b64$')
+    paths, ex = A.paths(f, inline=r'base64::decode_b64::\{closure')
+
+    def r_dec(p):
+        if p.kind != 'return':
+            return 'panic ' + p.msg
+        if not p.is_ok():
+            return None
+        u8 = [c for c in p.calls if re.search(r'(^|::)from_utf8$', c.name) and p.took(c, 'Ok') and arg_bytes(c.args[0]) == ('leaf', 'data')]
+        dc = [c for c in p.calls if re.search(r'BaseEncoding::decode$', c.name) and p.took(c, 'Ok')]
+        if len(u8) != 1 or len(dc) != 1 or strip(dc[0].args[0]) != ('field', u8[0].ret, 0, 'Ok') or 'Base64Url' not in term_str(dc[0].args[1]):
+            return 'decoded bytes do not come from the strict Base64Url decoder applied to the whole input'
+        extra = [c for c in p.calls if not c.inlined and c not in u8 + dc and not re.search(r'as_ref$|deref$', c.name)]
+        if extra:
+            return 'another route besides the strict decoder: %s' % extra[0].name.split('::')[-1]
+        return None if strip(p.term(p.payload())) == ('field', dc[0].ret, 0, 'Ok') else 'result is not the decoder\'s output'
+    A.require('decode_b64/only-the-strict-base64url-decoder', paths, r_dec, replay=RB)
+
+    f = prog.one(r'base64::encode_b64$')
+    paths, ex = A.paths(f, inline=r'base64::encode_b64::\{closure')
+
+    def r_enc(p):
+        if p.kind != 'return':
+            return 'panic ' + p.msg
+        ec = [c for c in p.calls if re.search(r'BaseEncoding::encode$', c.name)]
+        if len(paths) != 1 or len(ec) != 1 or arg_bytes(ec[0].args[0]) != ('leaf', 'data') or 'Base64Url' not in term_str(ec[0].args[1]):
+            return 'text is not the Base64Url encoding of the whole input'
+        return None if strip(p.term()) == strip(ec[0].ret) else 'result is not the encoder\'s output'
+    A.require('encode_b64/base64url-of-the-whole-input', paths, r_enc, replay=RB)
+
+    f = prog.one(r'base64::decode_b64_json$')
+    paths, ex = A.paths(f, inline=r'base64::decode_b64_json::\{closure')
+
+    def r_dj(p):
+        if p.kind != 'return':
+            return 'panic ' + p.msg
+        if not p.is_ok():
+            return None
+        d = [c for c in p.calls if re.search(r'base64::decode_b64$', c.name) and p.took(c, 'Ok') and strip(c.args[0]) == ('leaf', 'data')]
+        js = [c for c in p.calls if re.search(r'(^|::)from_slice$', c.name) and p.took(c, 'Ok')]
+        if len(d) != 1 or len(js) != 1 or arg_bytes(js[0].args[0]) != ('field', d[0].ret, 0, 'Ok'):
+            return 'JSON not parsed from decode_b64 of the whole input'
+        return None if strip(p.term(p.payload())) == ('field', js[0].ret, 0, 'Ok') else 'result is not the parsed value'
+    A.require('decode_b64_json/json-of-decode_b64', paths, r_dj, replay=RB)
+
+    f = prog.one(r'base64::encode_b64_json$')
+    paths, ex = A.paths(f, inline=r'base64::encode_b64_json::\{closure')
+
+    def r_ej(p):
+        if p.kind != 'return':
+            return 'panic ' + p.msg
+        if not p.is_ok():
+            return None
+        tv = [c for c in p.calls if re.search(r'(^|::)to_vec$', c.name) and p.took(c, 'Ok') and strip(c.args[0]) == ('leaf', 'data')]
+        e = [c for c in p.calls if re.search(r'base64::encode_b64$', c.name)]
+        if len(tv) != 1 or len(e) != 1 or strip(e[0].args[0]) != ('field', tv[0].ret, 0, 'Ok'):
+            return 'text is not encode_b64 of the serialised value'
+        return None if strip(p.term(p.payload())) == strip(e[0].ret) else 'result is not the encoded text'
+    A.require('encode_b64_json/encode_b64-of-the-json-bytes', paths, r_ej, replay=RB)
+
 
 def main(ctx):
     prog, info = load(CRATES)
     ctx.extra['mir'] = info
     ctx.bounds.append('audit: all paths of the listed acyclic orchestrators, callee results unconstrained (uninterpreted)')
     ctx.outside += ['serde parsing of headers/envelopes', 'the cryptography inside the Ed25519/ES256/ES256K verifiers (their dispatch on input.alg is audited)',
-                    'that base64url decoding and create_message compute the right bytes is the K part (thorough tier)']
+                    'the multibase Base64Url engine itself (third-party; that the library reaches it, and only it, is audited)']
     ctx.assumptions.append('callees not inlined are uninterpreted functions of their arguments; pure callees are functionally consistent')
     guarded(ctx, 'jws binding audit', 'M', lambda: run(ctx, prog))
+    guarded(ctx, 'base64url codec binding', 'M', lambda: codec_binding(ctx, prog))
     guarded(ctx, 'verifier dispatch', 'M', lambda: verifier_dispatch(ctx))
     guarded(ctx, 'scheme verifiers', 'M', lambda: scheme_verifiers(ctx))
